@@ -135,6 +135,73 @@ Definition fetch_wf (kind_of : N -> fkind) (f : fetch) : bool :=
      | _, _ => false
      end) (f_datapath f) (datapath_of (f_kind f)).
 
+(* [sub_b a b]: a is b with some subtrees absent (object members missing) or null *)
+Fixpoint sub_b (a b : json) {struct a} : bool :=
+  match a with
+  | JNull => true
+  | JBool x => match b with JBool y => Bool.eqb x y | _ => false end
+  | JNum x => match b with JNum y => bytes_eqb x y | _ => false end
+  | JStr x => match b with JStr y => bytes_eqb x y | _ => false end
+  | JArr la =>
+    match b with
+    | JArr lb =>
+      (fix go (la lb : list json) {struct la} : bool :=
+         match la, lb with
+         | [], [] => true
+         | x :: la', y :: lb' => sub_b x y && go la' lb'
+         | _, _ => false
+         end) la lb
+    | _ => false
+    end
+  | JObj ma =>
+    match b with
+    | JObj mb =>
+      (fix go (ma : list (bytes * json)) : bool :=
+         match ma with
+         | [] => true
+         | (k, v) :: r => (match obj_get k mb with Some v' => sub_b v v' | None => false end) && go r
+         end) ma
+    | _ => false
+    end
+  end.
+Definition sub (a b : json) : Prop := sub_b a b = true.
+Definition is_atom (j : json) : bool := match j with JStr _ | JNum _ | JBool _ => true | _ => false end.
+
+
+(* ---- plan well-formedness (what the planner and the post-processor guarantee) ---- *)
+Definition rep_field_ok (f : field) : bool :=
+  match f with
+  | Fld _ (Some _) None None (NStr [_] false) | Fld _ (Some _) None None (NInt [_] false)
+  | Fld _ (Some _) None None (NFloat [_] false) | Fld _ (Some _) None None (NBool [_] false) => true
+  | _ => false
+  end.
+Definition rep_wf (n : node) : bool :=
+  match n with
+  | NObj [] true _ [] _ false fields => forallb rep_field_ok fields
+  | _ => false
+  end.
+
+Definition no_types (path : list pathelem) : bool :=
+  forallb (fun pe => match pe_types pe with [] => true | _ => false end) path.
+
+
+(* every fetch's dependencies come earlier in the tree's execution order *)
+Definition deps_before (t : ftree) : bool :=
+  (fix go (fs : list fetch) (seen : list N) : bool :=
+     match fs with
+     | [] => true
+     | f :: r => forallb (fun d => mem_n d seen) (f_deps f) && negb (mem_n (f_id f) seen) && go r (f_id f :: seen)
+     end) (fetches_of t) [].
+
+Definition fetch_ok (kind_of : N -> fkind) (f : fetch) : bool :=
+  fetch_wf kind_of f && no_types (f_path f) && (match f_mergepath f with [] => true | _ => false end) &&
+  match f_kind f with
+  | FSingle => match f_path f with [] => true | _ => false end     (* single fetches are root fetches *)
+  | _ => rep_wf (f_rep f)
+  end.
+Definition fplan_wf (kind_of : N -> fkind) (t : ftree) : bool :=
+  forallb (fetch_ok kind_of) (fetches_of t) && deps_before t.
+
 Section Runs.
   Variable answer : N -> bytes -> json * list json.
   Variable root_answer : N -> json * list json.
@@ -144,6 +211,47 @@ Section Runs.
   Definition run (F : N -> option fault) (t : ftree) : lstate :=
     fst (load unit (faulty_exchange answer root_answer kind_of F) t tt).
   Definition no_faults : N -> option fault := fun _ => None.
+
+  (* ---- the fault-free run is consistent: no merge overwrites or clashes ----
+     [targets f d]: where fetch f merges what, when it runs on data d against the clean subgraphs *)
+  Definition targets (f : fetch) (d : json) : list (rpath * json) :=
+    let items := select_items d (f_path f) in
+    match f_kind f with
+    | FSingle => match prepare f d items with
+                 | PLoad _ _ _ => map (fun l => (l, fst (root_answer (f_id f)))) items
+                 | PSkip _ => []
+                 end
+    | FEntity => match prepare f d items with
+                 | PLoad _ rq _ => match items, rq_reps rq with
+                                   | [l], [b] => [(l, fst (answer (f_id f) b))]
+                                   | _, _ => []
+                                   end
+                 | PSkip _ => []
+                 end
+    | FBatch => flat_map (fun bl => map (fun l => (l, fst (answer (f_id f) (fst bl)))) (snd bl))
+                         (snd (batch_prepare (f_rep f) items d []))
+    end.
+  Definition contained_b (d' : json) (t : rpath * json) : bool :=
+    match get_loc (fst t) d' with Some w => sub_b (snd t) w | None => false end.
+  Definition clean_exchange := faulty_exchange answer root_answer kind_of (fun _ => None).
+  Definition step_ok_b (f : fetch) (s : lstate) : bool :=
+    let s' := fst (run_fetch unit clean_exchange f (s, tt)) in
+    negb (ls_hard s') && sub_b (ls_data s) (ls_data s') &&
+    (match f_kind f with FEntity => Nat.leb (length (select_items (ls_data s) (f_path f))) 1 | _ => true end) &&
+    forallb (contained_b (ls_data s')) (targets f (ls_data s)).
+  Fixpoint consistent_from (t : ftree) (s : lstate) : bool :=
+    match t with
+    | FTSingle f => step_ok_b f s
+    | FTSeq l | FTPar l =>
+      (fix go (l : list ftree) (s : lstate) : bool :=
+         match l with
+         | [] => true
+         | t :: r => consistent_from t s && go r (fst (run_tree unit clean_exchange t (s, tt)))
+         end) l s
+    end.
+  (* after every fetch of the fault-free run: no merge failure, the previous data is contained in
+     the new data, an entity fetch had at most one item, every merged answer is contained at its target *)
+  Definition consistent (t : ftree) : bool := consistent_from t init_state.
 End Runs.
 
 (* fault kinds after which the loader always reports an error (the property's list, with the
